@@ -49,6 +49,10 @@ class VerusResult:
 
 
 def run(gen_path, info, extra=(), multiple_errors=50, rlimit=None, seed=None, timeout=1500, verify_modules=()):
+    try:
+        info.gen_path = gen_path
+    except Exception:
+        pass
     cmd = ['verus', os.path.basename(gen_path), '--multiple-errors', str(multiple_errors), '--output-json', '--time-expanded',
            '--error-format=json']
     if rlimit:
@@ -119,7 +123,24 @@ def enclosing(ranges, line):
 def attribute(d, info):
     msg = d.get('message', '')
     spans = d.get('spans', [])
-    lines = [(s['line_start'], s['line_end'], bool(s.get('is_primary')), s.get('label') or '') for s in spans]
+    # a span inside a macro of another crate (`write!`, `matches!` ... expand in core's sources) carries that file's line
+    # numbers: follow the expansion chain back to the invocation in the generated file; drop the span if there is none
+    own = os.path.basename(getattr(info, 'gen_path', '') or 'gen.rs')
+
+    def local(sp):
+        seen = 0
+        while sp is not None and seen < 8:
+            fn = sp.get('file_name') or ''
+            if os.path.basename(fn) == own and not fn.startswith('/rustc/'):
+                return sp
+            sp = (sp.get('expansion') or {}).get('span')
+            seen += 1
+        return None
+    lines = []
+    for s in spans:
+        ls = local(s)
+        if ls is not None:
+            lines.append((ls['line_start'], ls['line_end'], bool(s.get('is_primary')), s.get('label') or ''))
     sem = any(msg.startswith(x) or x in msg for x in SEMANTIC)
     und = any(x in msg for x in UNDECIDED)
     kind = 'undecided' if und else ('semantic' if sem else 'tool')
